@@ -81,6 +81,15 @@ def snapshot(obj):
         s["transform"] = np.asarray(obj.transform).tobytes()
     if hasattr(obj, "colors") and getattr(obj, "colors", None) is not None:
         s["pc_colors"] = np.asarray(obj.colors).tobytes()
+    # attached per-vertex / per-face data and texture coordinates belong to the object too
+    for attr in ("vertex_attributes", "face_attributes"):
+        d = getattr(obj, attr, None)
+        if d is not None:
+            s[attr] = sorted((str(k), np.asarray(v).tobytes()) for k, v in d.items())
+    vis = getattr(obj, "visual", None)
+    if vis is not None and getattr(vis, "kind", None) == "texture" and getattr(vis, "uv", None) is not None:
+        s["uv"] = np.asarray(vis.uv).tobytes()
+    s["metadata_keys"] = sorted(str(k) for k in getattr(obj, "metadata", {}) or {})
     return s
 
 
@@ -185,7 +194,8 @@ class C08(World):
         return {"kind": kind, "fmt": fmt, "route": rng.choice(ROUTES[kind]), "transport": rng.choice(TRANSPORTS), "digits": rng.choice([None, None, 6, 12]),
                 "loadopts": rng.choice(LOAD_CHOICES[load_family(fmt)]) if kind in ("mesh", "scene", "points") and fmt not in ("dict", "dict64") else {},
                 "opts": {"vertex_normal": rng.choice([None, True, False]), "include_attributes": rng.choice([None, True, False]), "include_normals": rng.choice([None, True, False]),
-                         "include_color": rng.choice([None, True]), "merge_buffers": rng.choice([None, True]), "embed_buffers": rng.choice([None, True]), "unitize_normals": rng.choice([None, False])}}
+                         "include_color": rng.choice([None, True]), "merge_buffers": rng.choice([None, True]), "embed_buffers": rng.choice([None, True]), "unitize_normals": rng.choice([None, False]), "delimiter": rng.choice([None, None, ",", ";", "\t"])},
+                "dict_direct": rng.random() < 0.5}
 
     def generate(self, rng, cfg):
         return {"config": cfg, "ops": [{"op": "pipe", "geom": fw.random_geometry_recipe(rng, cfg["kind"]), "rs": rng.randrange(2**31)}]}
@@ -209,7 +219,7 @@ class C08(World):
             opts = dict(cfg.get("opts") or {}, digits=cfg.get("digits"))
             if cfg["kind"] != "mesh":
                 # the mesh-only encoding options (normals, attributes) are not defined for other kinds
-                opts = {"digits": opts.get("digits")}
+                opts = {"digits": opts.get("digits"), "delimiter": opts.get("delimiter")}
             return fw.export_payload(obj, fmt, opts)
         except (KeyboardInterrupt, SystemExit, MemoryError):
             raise
@@ -221,6 +231,10 @@ class C08(World):
         if cfg["kind"] in ("mesh", "scene", "points"):
             kwargs["process"] = False
         kwargs.update(cfg.get("loadopts") or {})
+        if fmt == "xyz" and (cfg.get("opts") or {}).get("delimiter"):
+            kwargs["delimiter"] = cfg["opts"]["delimiter"]
+        if fmt in ("dict", "dict64") and cfg["kind"] in ("path2d", "path3d") and cfg.get("dict_direct"):
+            kwargs["dict_direct"] = True
         try:
             loaded, fobj = fw.load_payload(files, main, ft, route=cfg["route"], transport=cfg["transport"], scratch=scratch, kwargs=kwargs)
         except (KeyboardInterrupt, SystemExit, MemoryError):
